@@ -511,17 +511,38 @@ impl Property for C03 {
             }
         }
         let ctxmsg = |m: String| format!("{m}\n instance {}\n fixed {:?} remaining {:?}", describe_inst(inst), sorted_state(&s1), sorted_state(&s2));
-        // substituted values recorded, everything else about variables unchanged
-        if pe.decision_variables.len() != inst.decision_variables.len() {
-            return fail("C03/instance/variables-changed", ctxmsg("number of decision variables changed".into()));
-        }
-        for (a, b) in inst.decision_variables.iter().zip(pe.decision_variables.iter()) {
-            let mut want = a.clone();
-            if let Some(v) = s1.entries.get(&a.id) {
-                want.substituted_value = Some(*v);
+        // Fixed values recorded on the fixed variables; what a variable IS (id, kind, effective bound) unchanged. The
+        // statement promises nothing about the other fields of a variable: an implementation may write an implied bound
+        // out explicitly, or record the value of a dependent variable that has become a number; what is reported for
+        // every variable is decided by the evaluation at the end.
+        {
+            let ids_a: Vec<u64> = inst.decision_variables.iter().map(|v| v.id).collect();
+            let mut ids_b: Vec<u64> = pe.decision_variables.iter().map(|v| v.id).collect();
+            let mut sorted_a = ids_a.clone();
+            sorted_a.sort_unstable();
+            ids_b.sort_unstable();
+            if sorted_a != ids_b {
+                return fail("C03/instance/variables-changed", ctxmsg("the set of decision variables changed".into()));
             }
-            if &want != b {
-                return fail("C03/instance/substituted-value", ctxmsg(format!("decision variable {} after partial_evaluate is {b:?}, expected {want:?}", a.id)));
+        }
+        for a in inst.decision_variables.iter() {
+            let b = pe.decision_variables.iter().find(|v| v.id == a.id).unwrap();
+            if let Some(v) = s1.entries.get(&a.id) {
+                if b.substituted_value != Some(*v) {
+                    return fail("C03/instance/substituted-value", ctxmsg(format!("decision variable {} was fixed at {v} but carries the recorded value {:?}", a.id, b.substituted_value)));
+                }
+            } else if a.substituted_value.is_some() && b.substituted_value != a.substituted_value {
+                return fail("C03/instance/substituted-value", ctxmsg(format!("decision variable {} lost or changed its earlier recorded value {:?} -> {:?}", a.id, a.substituted_value, b.substituted_value)));
+            }
+            let eb = |v: &v1::DecisionVariable| effective_bound(v).ok().map(|(l, h)| (l.to_bits(), h.to_bits()));
+            if a.kind != b.kind || eb(a) != eb(b) {
+                return fail("C03/instance/variable-domain-changed", ctxmsg(format!("decision variable {} changed its kind or effective bound: {a:?} -> {b:?}", a.id)));
+            }
+            let mut b2 = b.clone();
+            b2.substituted_value = a.substituted_value;
+            b2.bound = a.bound.clone();
+            if &b2 != a && !s1.entries.contains_key(&a.id) {
+                ctx.label("variable-message-differs-beyond-the-promised-fields");
             }
         }
         // functions rewritten
@@ -569,10 +590,12 @@ impl Property for C03 {
         }
         let dk: BTreeSet<u64> = inst.decision_variable_dependency.keys().copied().collect();
         let dk2: BTreeSet<u64> = pe.decision_variable_dependency.keys().copied().collect();
-        if dk != dk2 {
+        // a definition may disappear when it has become a number that is recorded on the variable instead (the
+        // evaluation at the end decides whether the variable is still reported correctly); none may appear
+        if !dk2.is_subset(&dk) {
             return fail("C03/instance/dependency-keys", ctxmsg(format!("dependency keys changed {dk:?} -> {dk2:?}")));
         }
-        for k in &dk {
+        for k in &dk2 {
             chk("C03/instance/dependency", &Some(inst.decision_variable_dependency[k].clone()), &Some(pe.decision_variable_dependency[k].clone()))?;
         }
         if pe.sense != inst.sense || pe.description != inst.description || pe.constraint_hints != inst.constraint_hints || pe.parameters != inst.parameters {
